@@ -45,7 +45,7 @@ def run(ctx):
         inner = [n for st in h.body for n in ast.walk(st) if isinstance(n, ast.Try)]
         if len(inner) == 1 and h.name:
             ih = [x for x in inner[0].handlers if any("SchemaRepositoryError" in nm for nm in handler_names(x))]
-            ok = len(ih) == 1 and len(ih[0].body) == 1 and isinstance(ih[0].body[0], ast.Raise) and norm(ih[0].body[0].exc) == h.name
+            ok = len(ih) == 1 and len(ih[0].body) == 1 and isinstance(ih[0].body[0], ast.Raise) and ih[0].body[0].exc is not None and norm(ih[0].body[0].exc) == h.name
             ms = [n for st in h.body for n in ast.walk(st) if isinstance(n, ast.Assign) and norm(n) == f"missing_subject = {h.name}.name"]
             ok = ok and len(ms) == 1
     ctx.check("C19.R1", "retry loop: the missing subject is error.name and a failed load re-raises that UnknownType", ok, pw.where(), "_parse_schema_with_repo handlers", "a missing file must surface as an error naming the missing type, not as a repository error about a file")
